@@ -171,9 +171,29 @@ class C15(Prop):
                                      expected=[p[:2] for p in impl_parts(a.actual)][:6], observed=[p[:2] for p in impl_parts(b.actual)][:6]))
             else:
                 validated += 1
-        return dict(evaluations=len(results) + len(raw), validated=validated, failures=failures, samples=samples,
-                    groups=len(groups), path_named_requests=len(raw))
+        eq_in = [(m, a, it, dict(k=k, side=i)) for k, pair in enumerate(EQUIVALENT_REQUESTS) for i, (m, a, it) in enumerate(pair)]
+        eq_raw = R.run_raw(eq_in)
+        for a, b in zip(eq_raw[0::2], eq_raw[1::2]):
+            if impl_parts(a.actual) != impl_parts(b.actual) or not impl_parts(a.actual):
+                failures.append(dict(**{'class': 'lists-around-derive-Ex-not-merged', 'mode': 'split'}, input=a.input_text(),
+                                     merged_input=b.input_text(), expected=[p[:2] for p in impl_parts(b.actual)][:6],
+                                     observed=[p[:2] for p in impl_parts(a.actual)][:6]))
+            else:
+                validated += 1
+        return dict(evaluations=len(results) + len(raw) + len(eq_raw), validated=validated, failures=failures, samples=samples,
+                    groups=len(groups), path_named_requests=len(raw), mixed_entry_point_requests=len(eq_raw))
 
+
+# both entry points on one item: the attribute macro takes every `#[derive_ex(..)]` list of the item, also those written
+# after `#[derive(Ex)]` - the request is worth the merged one.  (entry point, arguments, item) pairs with equal impls
+EQUIVALENT_REQUESTS = [
+    (('A', 'PartialEq', '#[derive(Ex)] #[derive_ex(Hash)] struct X(#[eq(key = $.len())] String);'),
+     ('A', 'PartialEq, Hash', '#[derive(Ex)] struct X(#[eq(key = $.len())] String);')),
+    (('A', 'Clone', '#[derive(Ex)] #[derive_ex(Default, Debug)] #[default(X(1))] struct X(#[debug(ignore)] u8);'),
+     ('A', 'Clone, Default, Debug', '#[default(X(1))] struct X(#[debug(ignore)] u8);')),
+    (('A', 'Debug', '#[derive_ex(Clone)] #[derive(Ex)] #[derive_ex(PartialEq)] enum E { A(#[partial_eq(ignore)] u8), B }'),
+     ('D', '', '#[derive_ex(Debug, Clone, PartialEq)] enum E { A(#[partial_eq(ignore)] u8), B }')),
+]
 
 # (entry point, argument list, item with @X@ where the path-named attribute goes, that attribute)
 PATH_NAMED_LISTS = [
